@@ -27,7 +27,9 @@ PlanClauses ==
       prev == ToSet(E.prev)
       omem == ToSet(E.omem)
       osub == SubF(omem, E.osub)
-      chained == E.strat = "sticky" /\ E.kind # "init"
+      \* "given": the previous assignment was handed in as arbitrary user data (C08's quantifier), not produced by the
+      \* strategy - the stickiness clauses (whose premise is a fed-back plan) do not apply to that step
+      chained == E.strat = "sticky" /\ E.kind \notin {"init", "given"}
   IN
   IF E.err # "" THEN V("plan_error")
   ELSE
